@@ -328,9 +328,9 @@ pub fn stream_play(bytes: &[u8], sr: u32, start: usize, seeks: &[(usize, usize)]
 			// the harness renders much faster than a device would; give the decoder thread (which
 			// sleeps 1 ms whenever its 16384-frame ring is full) time to keep ahead
 			since_pause += CH;
-			if since_pause >= 4096 {
+			if since_pause >= 2048 {
 				since_pause = 0;
-				std::thread::sleep(Duration::from_micros(1500));
+				std::thread::sleep(Duration::from_micros(2000));
 			}
 			while next_seek < seeks.len() && p.out.len() >= seeks[next_seek].0 {
 				let t = seeks[next_seek].1;
@@ -459,6 +459,12 @@ pub fn match_stream(stat: &[(f32, f32)], start: usize, seeks: &[(usize, usize)],
 						if allow_starve && c[o] == (0, 0) && cost < 256 {
 							stack.push((o + 1, i, k, cost + 1));
 							stack.push((o + 1, i + 1, k, cost + 1));
+							// ... including the first frame after a seek
+							for k2 in k..p.issued_at.len() {
+								if p.issued_at[k2] <= off0 + o {
+									stack.push((o + 1, seeks[k2].1 + 1, k2 + 1, cost + 1));
+								}
+							}
 						}
 					}
 					if exp(i) != c[o] {
@@ -701,7 +707,7 @@ pub fn run(args: &Args) {
 	// lengths around the packet size of symphonia's WAV reader (1152 frames) and a few thousand frames
 	let mut long_lengths = vec![1151usize, 1152, 1153, 2304, 3000 + rng.below(2000) as usize, 2305];
 	if args.thorough {
-		long_lengths.extend([3456, 3457, 10_000, 20_000]);
+		long_lengths.extend([3456, 3457, 4608, 5000]); // (longer literals overflow coqc's parser stack)
 	}
 	for (k, &n) in long_lengths.iter().enumerate() {
 		let fmt = FMTS[k % 6];
@@ -898,7 +904,7 @@ pub fn run(args: &Args) {
 			cut += if cut < 64 { 1 } else { step };
 		}
 		// header corruptions: every byte of the header, every other value
-		let full_model = bi < 1 || args.thorough;
+		let full_model = (bi < 1 || args.thorough) && bytes.len() < 400;
 		for off in 0..44usize {
 			for v in 0..=255u8 {
 				if v == bytes[off] {
